@@ -16,8 +16,34 @@
     ..._partial: that the model's "discarded worker copies" is what the code does (deepcopy per worker) is the
     queried-versus-unqueried twin relation on the implementation. *)
 From Coq Require Import List ZArith Bool Arith QArith Qcanon Permutation.
-From MW Require Import Num Assoc AssocFacts Rng Par CF CFInv CFClean CFForget CFSpec Matrix Lin Warm WarmInv Nbr NbrFacts NbrIndep LshFacts Clu Tree CellFacts Mab FacadeCF FacadeArms MoreFacts NumLaws CFAlg Sim Extra QcInst OrderFacts ExpIrrel LinInv FacadeLin LpInv NbrInv CluTreeInv FacadeAll ToyFacts C09All C10All LinForget LinSim MatrixFacts GaussJordan LinSpec NbrIndepGen CluIndep C17Lin WarmIdem C14More LshScale TreeLeaf Rename PopSpec CopyFacts StatFacts CluBatch LinWarm.
+From MW Require Import Num Assoc AssocFacts Rng Par CF CFInv CFClean CFForget CFSpec Matrix Lin Warm WarmInv Nbr NbrFacts NbrIndep LshFacts Clu Tree CellFacts Mab FacadeCF FacadeArms MoreFacts NumLaws CFAlg Sim Extra QcInst OrderFacts ExpIrrel LinInv FacadeLin LpInv NbrInv CluTreeInv FacadeAll ToyFacts C09All C10All LinForget LinSim MatrixFacts GaussJordan LinSpec NbrIndepGen CluIndep C17Lin WarmIdem C14More LshScale TreeLeaf Rename PopSpec CopyFacts StatFacts CluBatch LinWarm C10Twin.
 Import ListNotations.
+
+Theorem C10_queried_bandit_is_indistinguishable_under_every_continuation :
+  forall (R A G : Type) (N : Num R) (aeqb : A -> A -> bool) (RG : RngOps R G),
+  (forall x y : A, aeqb x y = true <-> x = y) ->
+  forall (m : (@mab R A G)) (qs ops : list (@op R A)),
+  rng_lengths_ok RG ->
+  imp_inv (m_imp m) ->
+  Forall is_query qs ->
+  snd (run N aeqb RG (copy_streams m (fst (run N aeqb RG m qs))) ops) = snd (run N aeqb RG m ops).
+Proof. exact @queried_bandit_is_indistinguishable. Qed.
+Print Assumptions C10_queried_bandit_is_indistinguishable_under_every_continuation.
+
+Theorem C10_any_number_of_queries_leads_to_a_twin :
+  forall (R A G : Type) (N : Num R) (aeqb : A -> A -> bool) (RG : RngOps R G),
+  (forall x y : A, aeqb x y = true <-> x = y) ->
+  forall (qs : list (@op R A)) (m : (@mab R A G)),
+  rng_lengths_ok RG -> imp_inv (m_imp m) -> Forall is_query qs -> twin m (fst (run N aeqb RG m qs)).
+Proof. exact @queries_twin. Qed.
+Print Assumptions C10_any_number_of_queries_leads_to_a_twin.
+
+Theorem C10_a_twin_with_copied_streams_answers_every_continuation_alike :
+  forall (R A G : Type) (N : Num R) (aeqb : A -> A -> bool) (RG : RngOps R G) 
+    (m m' : (@mab R A G)) (ops : list (@op R A)),
+  twin m m' -> snd (run N aeqb RG (copy_streams m m') ops) = snd (run N aeqb RG m ops).
+Proof. exact @twin_run. Qed.
+Print Assumptions C10_a_twin_with_copied_streams_answers_every_continuation_alike.
 
 Theorem C10_query_changes_only_generator_and_last_sample_partial :
   forall (R A G : Type) (N : Num R) (aeqb : A -> A -> bool) (RG : RngOps R G) 
@@ -88,4 +114,37 @@ Theorem C10_linear_query_moves_only_private_generators :
 Proof. exact @query_keeps_linear_model. Qed.
 Print Assumptions C10_linear_query_moves_only_private_generators.
 
+(* non-vacuity of the twin theorem, on two bandits whose queries DO change the state: a Thompson Sampling bandit (the stored copy of
+   the last sample) and a LinTS bandit (the private generators of the per-arm regressions).  After fit and two queries the state differs
+   from the unqueried one, the hypotheses of the theorem hold, and with the stream positions copied across a continuation of
+   partial_fit / add_arm / predict_expectations / predict gives the same outputs. *)
+Definition tq (z : Z) : Qc := Q2Qc (inject_Z z).
+Definition tw_orc : @oracle Qc Z := mkOracle [] [] [] (fun _ _ => 0%nat) [1%nat].
+Definition tw_ts0 : @mab Qc Z nat := mkMab (ICf (cf_init QcNum KThompson (tq 0) None [1; 2]%Z)) false 3%nat.
+Definition tw_lin0 : @mab Qc Z nat := mkMab (ILin (lin_init QcNum RTs (tq 1) (tq 0) (tq 1) false false [1; 2]%Z)) false 3%nat.
+Definition tw_fit_cf := Fit [1; 2; 1]%Z [tq 1; tq 0; tq 1] None tw_orc.
+Definition tw_fit_cx := Fit [1; 2; 1]%Z [tq 1; tq 0; tq 1] (Some [[tq 1; tq 0]; [tq 0; tq 1]; [tq 1; tq 1]]) tw_orc.
+Definition tw_qs_cf : list (@op Qc Z) := [Predict None tw_orc; PredictExp None tw_orc].
+Definition tw_qs_cx : list (@op Qc Z) := [Predict (Some [[tq 1; tq 2]]) tw_orc; PredictExp (Some [[tq 2; tq 1]; [tq 0; tq 3]]) tw_orc].
+Definition tw_cont_cf : list (@op Qc Z) := [PartialFit [2]%Z [tq 1] None tw_orc; AddArm 5%Z None; PredictExp None tw_orc; Predict None tw_orc].
+Definition tw_cont_cx : list (@op Qc Z) :=
+  [PartialFit [2]%Z [tq 1] (Some [[tq 3; tq 1]]) tw_orc; AddArm 5%Z None; PredictExp (Some [[tq 1; tq 1]]) tw_orc; Predict (Some [[tq 1; tq 1]]) tw_orc].
+Example C10_twin_hypotheses_satisfiable_and_queries_change_the_state :
+  let m_ts := state_after QcNum Z.eqb ToyRng tw_ts0 [tw_fit_cf] in
+  let m_lin := state_after QcNum Z.eqb ToyRng tw_lin0 [tw_fit_cx] in
+  rng_lengths_ok ToyRng /\ imp_inv (m_imp m_ts) /\ imp_inv (m_imp m_lin) /\ Forall is_query tw_qs_cf /\ Forall is_query tw_qs_cx /\
+  m_imp (state_after QcNum Z.eqb ToyRng m_ts tw_qs_cf) <> m_imp m_ts /\
+  m_imp (state_after QcNum Z.eqb ToyRng m_lin tw_qs_cx) <> m_imp m_lin /\
+  snd (run QcNum Z.eqb ToyRng (copy_streams m_ts (state_after QcNum Z.eqb ToyRng m_ts tw_qs_cf)) tw_cont_cf)
+  = snd (run QcNum Z.eqb ToyRng m_ts tw_cont_cf) /\
+  snd (run QcNum Z.eqb ToyRng (copy_streams m_lin (state_after QcNum Z.eqb ToyRng m_lin tw_qs_cx)) tw_cont_cx)
+  = snd (run QcNum Z.eqb ToyRng m_lin tw_cont_cx).
+Proof.
+  cbv zeta. split; [exact toy_rng_lengths_ok|].
+  split; [apply (run_preserves_imp_inv QcNum Z.eqb ToyRng Z.eqb_eq); [exact toy_rng_lengths_ok|]; simpl; apply keys_ok_init; repeat constructor; simpl; intuition discriminate|].
+  split; [apply (run_preserves_imp_inv QcNum Z.eqb ToyRng Z.eqb_eq); [exact toy_rng_lengths_ok|]; simpl; apply lin_keys_ok_init; repeat constructor; simpl; intuition discriminate|].
+  split; [repeat constructor|]. split; [repeat constructor|].
+  split; [vm_compute; discriminate|]. split; [vm_compute; discriminate|].
+  split; vm_compute; reflexivity.
+Qed.
 
